@@ -135,10 +135,10 @@ func specBytesIndex(f *frame, callee *ssa.Function, args []Val, in string, st *S
 	s, sep := args[0], args[1]
 	r := vc.fresh(f.prefix+"bytesindex", "Int")
 	at := func(sl, i string) string {
-		return App("select", st.H["Int"], App("Elem", App("sl.base", sl), App("+", App("sl.off", sl), i)))
+		return App("select", st.H["Int"], App("at_", sl, i))
 	}
 	vc.assume(in, Or(Eq(r, "(- 1)"), And(App("<=", "0", r), App("<=", App("+", r, App("sl.len", sep.T)), App("sl.len", s.T)))))
-	vc.assume(in, fmt.Sprintf("(=> (>= %s 0) (forall ((j! Int)) (! (=> (and (<= 0 j!) (< j! (sl.len %s))) (= %s %s)) :pattern (%s))))", r, sep.T, at(s.T, App("+", r, "j!")), at(sep.T, "j!"), at(sep.T, "j!")))
+	vc.assume(in, fmt.Sprintf("(=> (>= %s 0) (forall ((j! Int)) (! (=> (and (<= 0 j!) (< j! (sl.len %s))) (= %s %s)) :pattern ((at_ %s j!)))))", r, sep.T, at(s.T, App("+", r, "j!")), at(sep.T, "j!"), sep.T))
 	return Val{T: r, Typ: types.Typ[types.Int]}, true
 }
 
@@ -169,6 +169,14 @@ func specUvarint(f *frame, callee *ssa.Function, args []Val, in string, st *Stat
 
 // stdSpecMods reports what a std call inside a loop may write.
 func stdSpecMods(f *frame, full string, cc *ssa.CallCommon) ([]modPat, bool) {
+	if full == "slices.Insert" {
+		var pats []modPat
+		et := cc.Args[0].Type().Underlying().(*types.Slice).Elem()
+		for _, lf := range f.vc.leaves(et) {
+			pats = append(pats, modPat{sort: lf.sort, steps: append([]step{{elem: true}}, lf.steps...)})
+		}
+		return pats, true
+	}
 	if _, ok := stdSpecs[full]; ok {
 		return nil, true
 	}
@@ -190,4 +198,87 @@ func (f *frame) ifaceModPats(cc *ssa.CallCommon) ([]modPat, bool) {
 	}
 	_ = name
 	return nil, false
+}
+
+func init() {
+	stdSpecs["slices.Insert"] = specSlicesInsert
+	StdSpecDoc["slices.Insert"] = "slices.Insert(s,i,v) with one value: requires 0<=i<=len(s); result has len(s)+1 elements, r[k]=s[k] for k<i, r[i]=v, r[k+1]=s[k] for k>=i; reuses s's array when cap suffices, else a fresh array; only element cells of the result's array change"
+}
+
+// specSlicesInsert models slices.Insert for a single inserted value.
+func specSlicesInsert(f *frame, callee *ssa.Function, args []Val, in string, st *State, site ssa.Instruction) (Val, bool) {
+	vc := f.vc
+	call, ok := site.(*ssa.Call)
+	if !ok || len(args) != 3 {
+		return Val{}, false
+	}
+	if k, isConst := f.constSliceLen(call.Call.Args[2]); !isConst || k != 1 {
+		return Val{}, false
+	}
+	vc.useStd(callee)
+	if f.inDeclLoop(site.Block()) {
+		vc.unsupported("slices.Insert inside a loop with a declared assigns frame")
+	}
+	s, idx, vs := args[0], args[1], args[2]
+	et := s.Typ.Underlying().(*types.Slice).Elem()
+	slen := App("sl.len", s.T)
+	vc.obligeIn(f, "bounds", "slices.Insert:"+vc.anchorAt(f.fn, site.Pos(), "call"), in, And(App("<=", "0", idx.T), App("<=", idx.T, slen)), site.Pos(), "slices.Insert index in range")
+	pre := st.Clone()
+	// the inserted value, read before the heap changes
+	v := vc.define(f.prefix+call.Name()+"_v", vc.sorts.SortOf(et), vc.loadVal(pre, App("at_", vs.T, "0"), et, in, true))
+	newLen := vc.define(f.prefix+call.Name()+"_len", "Int", App("+", slen, "1"))
+	fits := vc.define(f.prefix+call.Name()+"_fits", "Bool", App("<=", newLen, App("sl.cap", s.T)))
+	fresh := f.alloc(call.Name(), in, st)
+	newCap := vc.fresh(f.prefix+call.Name()+"_cap", "Int")
+	vc.assert(App(">=", newCap, newLen))
+	r := vc.defineConst(f.prefix+call.Name(), "Slice", Ite(fits, App("mk-slice", App("sl.base", s.T), App("sl.off", s.T), newLen, App("sl.cap", s.T)), App("mk-slice", fresh, "0", newLen, newCap)))
+	newH := f.bulkHeaps(st, pre, et, "ins", func(lf leaf) string {
+		pat := modPat{sort: lf.sort, base: App("sl.base", r), steps: append([]step{{elem: true}}, lf.steps...)}
+		return pat.matchCond("l!")
+	})
+	for _, lf := range vc.leaves(et) {
+		if hasElemStep(lf.steps) {
+			vc.unsupported("slices.Insert of elements containing arrays")
+			continue
+		}
+		old := pre.H[lf.sort]
+		h := newH[lf.sort]
+		dst := func(k string) string { return App("select", h, applySteps(App("at_", r, k), lf.steps)) }
+		src := func(k string) string { return App("select", old, applySteps(App("at_", s.T, k), lf.steps)) }
+		// leaf of the inserted value
+		var vleaf string
+		if len(lf.steps) == 0 {
+			vleaf = v
+		} else {
+			// project the struct value along the field steps
+			vleaf = vc.projectLeaf(v, et, lf.steps)
+		}
+		vc.assume(in, fmt.Sprintf("(forall ((k! Int)) (! (=> (and (<= 0 k!) (< k! %s)) (= %s (ite (< k! %s) %s (ite (= k! %s) %s %s)))) :pattern ((at_ %s k!))))",
+			newLen, dst("k!"), idx.T, src("k!"), idx.T, vleaf, src("(- k! 1)"), r))
+	}
+	return Val{T: r, Typ: s.Typ}, true
+}
+
+// projectLeaf selects, from a struct-typed term, the scalar reached by field steps.
+func (vc *VC) projectLeaf(term string, t types.Type, steps []step) string {
+	cur, ct := term, t
+	for _, s := range steps {
+		st, ok := ct.Underlying().(*types.Struct)
+		if !ok {
+			return term
+		}
+		found := false
+		for i := 0; i < st.NumFields(); i++ {
+			if vc.sorts.FieldID(ct, i) == s.fld {
+				cur = App(fmt.Sprintf("%s.f%d", vc.sorts.SortOf(ct), i), cur)
+				ct = st.Field(i).Type()
+				found = true
+				break
+			}
+		}
+		if !found {
+			return term
+		}
+	}
+	return cur
 }
